@@ -129,6 +129,7 @@ def run(ctx):
         return run_fixture(ctx, cfg, f)
     multi = cfg.chance(1, 3)
     feat = C.draw_features(ctx)
+    feat["hard_numbers"] = cfg.chance(1, 3)
     if multi:
         feat["max_params"] = 2
         nag = 2 + cfg.draw(3)
